@@ -241,6 +241,7 @@ PROPS = {
     ),
     "C02": dict(
         module="Hb.Props.C02",
+        more_modules=["Hb.Props.C02SetTable"],
         ties=[("scen", "mixed", 300, 10000), ("scen", "saturate", 80, 3000), ("scen", "entry-full", 120, 4000),
               ("scen", "table", 150, 5000), ("scen", "set", 100, 3000), ("scen", "iter", 100, 3000),
               ("scen", "panic-mixed", 4, 120), ("scen", "reserve", 100, 3000), ("scen", "clone", 80, 3000), ("custom", miri_support)],
@@ -252,7 +253,10 @@ PROPS = {
              "(any hasher incl. all-colliding/inconsistent, panicking callbacks, refusing allocator), every history of the "
              "modelled calls (basic calls, every entry-API family with any chain and any caller-supplied hash, try_insert, "
              "extend, get_many_mut, Index) incl. forgetting a part-consumed drain, `fault` is unreachable and the API invariant holds after "
-             "every call (returned or unwound); a forgotten drain leaves the valid empty singleton; element regions of the "
+             "every call (returned or unwound); the same for HashSet (set_run2_safe: every history of the 27 set calls on a pair of sets) and "
+             "HashTable (table_runH_safe: every history of the 17 table calls with ARBITRARY caller-supplied hashes and an arbitrary, "
+             "possibly panicking re-hash closure), with len = number of elements iteration yields in every reachable state "
+             "(Hb.Props.C02SetTable); a forgotten drain leaves the valid empty singleton; element regions of the "
              "layout are pairwise disjoint, inside the block and aligned (from C17). Tie: full dumps after every call on "
              "histories over element layouts (32..200 bytes, align 8..64, odd 5-byte/align-1, zero-sized in tables), tables "
              "smaller/equal/larger than a group, both back-ends, debug assertions and overflow checks on; direct oracles on the "
@@ -304,7 +308,8 @@ PROPS = {
              "the entry / raw-entry API and HashTable (get_many_mut) under unlawful tapes; direct oracles: "
              "structural invariant, ownership ledger, iteration count = len on the real collection.",
         note="Trusted: Lean kernel, axioms propext/Classical.choice/Quot.sound; harness, hooks. Termination on the real code is "
-             "observed as completion of the runs.",
+             "observed as completion of the runs. HashSet / HashTable histories under unlawful environments: "
+             "broken_hash_eq_safe_set_table in Hb.Props.C02SetTable (re-checked by C02's check).",
     ),
     "C04": dict(
         module="Hb.Props.C04",
@@ -326,7 +331,9 @@ PROPS = {
              "after catch_unwind the full state is compared with the model and judged by direct oracles (structural "
              "invariant, ownership ledger: no double drop / no leak unless a destructor panicked, len = #yielded = #found).",
         note="Trusted: Lean kernel, axioms propext/Classical.choice/Quot.sound; harness, hooks, protocol. Callback classes "
-             "Into (entry_ref) and extend-iterator panics are covered by the entry profile once C14's tie is present. Panics "
+             "Into (entry_ref) and extend-iterator panics are covered by the entry profile once C14's tie is present. HashSet / "
+             "HashTable histories: valid_after_any_panic_set_table (Hb.Props.C02SetTable, re-checked by C02's check); serde visitors "
+             "under panics: Hb.Props.C20Safe (re-checked by C20's check). Panics "
              "inside Drop while already unwinding abort the process by Rust's rules and are excluded.",
     ),
     "C06": dict(
@@ -560,6 +567,7 @@ PROPS = {
     ),
     "C20": dict(
         module="Hb.Props.C20",
+        more_modules=["Hb.Props.C20Safe"],
         ties=[("scen", "serde", 250, 8000), ("custom", serde_zst), ("t1", {})],
         backends=["sse2", "portable"],
         design="§7 C20",
@@ -574,8 +582,14 @@ PROPS = {
              "bound before the first element; zero-sized element types (HashSet<()>, HashMap<(),()>) through the real impls with "
              "claimed lengths up to 2^24 against the model's reservation; `cautious` regenerated from source (T1).",
         note="Trusted: Lean kernel, axioms propext/Classical.choice/Quot.sound; harness (scripted serde front-end), hooks, protocol. "
-             "Table-level statements are conditional on the call returning (lawful hasher, non-refusing allocator, non-panicking "
-             "destructors); unwinding paths of the visitors are modelled but not proved. serde's own data formats are out of scope.",
+             "last_wins / roundtrip at table level assume a lawful hasher; everything else is proved for EVERY environment in "
+             "Hb.Props.C20Safe (inconsistent or panicking Hash/Eq, panicking destructors, refusing allocator): the visitors, "
+             "deserialize_in_place and `*target = deserialize()?` never fault, the drop of the local collection while unwinding cannot "
+             "panic, the partially built collection is gone after an input error or panic (in place: a valid partially filled set), "
+             "every object built before the failure point is stored or dropped exactly once (lost only after a destructor panic), "
+             "blocks balanced, the old target untouched on error. deserialize_in_place into an EMPTIED place that still holds "
+             "tombstones may reserve 16384 buckets instead of 8192 (clear() returns early on an empty table; machine-checked "
+             "counterexample, still a constant bound — `in_place_reservation_bounded_partial`). serde's own data formats are out of scope.",
     ),
 }
 
